@@ -439,7 +439,7 @@ def lean_and_build(ck, module, theorems, driver, binary):
 
 
 def run(ck):
-    n = 220 if ck.quick() else 1500
+    n = 220 if ck.quick() else 600
     if not lean_and_build(ck, "RlModel.Thm.C08", THEOREMS, "drv_c08", "c08"):
         return ck.finish(level="proof", trusted_base=TRUSTED)
     cases = corpus_cases("C08") + gen_cases(ck, "c08", n)
